@@ -4,11 +4,8 @@ C08 — Service: each request gets exactly one outcome; contexts follow their sc
 (a) `Prop` statements used by `Props/C08.lean` (request outcome automaton);
 (b) the executable monitor evaluated on the implementation's observation stream.
 
-Known defect classes decided exactly:
-  F-svc-5  a batch beyond `RepeatedTotal` is issued for a context that was paused and started again
-           since its last batch (`StartRequestContext` queues a batch without looking at the total);
-  F-svc-3  a batch that was due is not issued because `FilterServiceProviders` found no exchange
-           rate: the handler returns before deleting the queue entry and the context is stuck.
+The former defect classes F-svc-3 (queue entry kept when no exchange rate is available) and F-svc-5 (batch
+beyond the total after pause + start) are repaired in /repo; such failures are reported unclassified.
 -/
 import Irismod.Model.Service
 
@@ -110,13 +107,6 @@ def callbacksOk (pre post : State) (isNext : Bool) : Bool :=
   isort evLe (respEvents post) == isort evLe (expectedRespEvents pre post) &&
   sortIds (stateEvents post) == (if isNext then sortIds (expectedStateEvents pre post) else [])
 
-/-- does the model's `FilterServiceProviders` fail (no exchange rate) for context `id` once the expired
-batches of this block are processed?  (class predicate of F-svc-3, evaluated on the implementation's pre-state) -/
-def rateErrorAt (pre : State) (id : CtxId) : Bool :=
-  let s1 := expiredPhase pre
-  let rc := getCtx s1 id
-  rc.state = .running && (filterProviders s1 rc rc.providers [] []).isNone
-
 def authorityOk (pre : State) (sender : Addr) (id : String) (viaMsg : Bool) : Bool :=
   match AMap.get? pre.ctxs id.toLower with
   | none => false
@@ -142,16 +132,16 @@ def checkSchedule (m : Mon) (pre post : State) : Mon × List Fail :=
     let f3 := if issued ∧ c.repeated ∧ clean ∧ 1 ≤ c.batchCounter ∧ last ≠ some (h - (c.freq : Int))
               then [{ clause := "batch-exactly-frequency-after-previous" : Fail }] else []
     let f4 := if issued ∧ c.repeated ∧ !(mm.modified.contains id) ∧ (0 : Int) ≤ c.total ∧ c.total ≤ (c.batchCounter : Int)
-              then [({ clause := "batch-beyond-total", cls := (if mm.pausedSince.contains id then "F-svc-5" else "") } : Fail)] else []
+              then [{ clause := "batch-beyond-total" : Fail }] else []
     let f5 := if issued ∧ !c.repeated ∧ 1 ≤ c.batchCounter then [{ clause := "one-shot-second-batch" : Fail }] else []
     let due := c.repeated && c.state = .running && clean && decide (1 ≤ c.batchCounter) &&
                (decide (c.total < (0 : Int)) || decide ((c.batchCounter : Int) < c.total)) && last == some (h - (c.freq : Int))
     let pausedNow : Bool := match cq with | some c' => c'.state = .paused | none => false
     let f6 := if due ∧ !issued ∧ !pausedNow then
-                [({ clause := "batch-due-not-issued", cls := (if rateErrorAt pre id then "F-svc-3" else "") } : Fail)] else []
+                [{ clause := "batch-due-not-issued" : Fail }] else []
     -- a running context whose new-batch entry is due gets its batch (or is paused for lack of funds)
     let f8 := if c.state = .running ∧ AMap.get? pre.newH id = some h ∧ pre.newQ.contains (h, id) ∧ !issued ∧ !pausedNow then
-                [({ clause := "queued-batch-issued", cls := (if rateErrorAt pre id then "F-svc-3" else "") } : Fail)] else []
+                [{ clause := "queued-batch-issued" : Fail }] else []
     -- a one-shot context is removed when its batch expires
     let f7 := if !c.repeated ∧ AMap.get? pre.expH id = some h ∧ cq.isSome then [{ clause := "one-shot-removed-at-expiry" : Fail }] else []
     let mm1 : Mon := if issued then issuedMon mm id h else mm
